@@ -61,8 +61,81 @@ def showMapped (m : Res (TzL.Mapped Zoned)) : String :=
   | .ok (.single a) => s!"single {showZ a}"
   | .ok (.ambiguous a b) => s!"ambiguous {showZ a} {showZ b}"
 
+
+/-! ### `pr.seam`: digest of `to_naive_date` over the subsets of the 14 date fields of one day
+(deterministic stream `seams:*` of harness/src/props/c14.rs; the harness computes the same digest
+from the real crate) -/
+
+/-- outcome code: NotEnough 0, Impossible 1, OutOfRange 2, panic 3, another error 4, a date 5 + (yof + 2^31) -/
+def seamCode (r : Parsed.RP M.Date) : Nat :=
+  match r with
+  | .panic => 3
+  | .ok (.error .notEnough) => 0
+  | .ok (.error .impossible) => 1
+  | .ok (.error .outOfRange) => 2
+  | .ok (.error _) => 4
+  | .ok (.ok d) => 5 + (d.yof + 2147483648).toNat
+
+/-- the record holding the date fields of `vals` (declaration order, 14 entries) whose bit is set in `mask` -/
+def seamRecord (vals : Array (Option Int)) (mask : Nat) : Parsed :=
+  let g (i : Nat) : Option Int := if mask.testBit i then (vals.getD i none) else none
+  { year := g 0, year_div_100 := g 1, year_mod_100 := g 2, isoyear := g 3, isoyear_div_100 := g 4,
+    isoyear_mod_100 := g 5, quarter := g 6, month := g 7, week_from_sun := g 8, week_from_mon := g 9,
+    isoweek := g 10, weekday := (g 11).bind fun v => Weekday.all[v.toNat]?, ordinal := g 12, day := g 13 }
+
+structure SeamAcc where
+  h : Nat := 0
+  ok : Nat := 0
+  ne : Nat := 0
+  imp : Nat := 0
+  oor : Nat := 0
+  other : Nat := 0
+
+def SeamAcc.push (a : SeamAcc) (code : Nat) : SeamAcc :=
+  let h := (a.h * 1000003 + code) % 2147483647
+  if code = 0 then { a with h := h, ne := a.ne + 1 }
+  else if code = 1 then { a with h := h, imp := a.imp + 1 }
+  else if code = 2 then { a with h := h, oor := a.oor + 1 }
+  else if code ≥ 5 then { a with h := h, ok := a.ok + 1 }
+  else { a with h := h, other := a.other + 1 }
+
+def SeamAcc.show (a : SeamAcc) : String := s!"{a.h} {a.ok} {a.ne} {a.imp} {a.oor} {a.other}"
+
+/-- field `i` of `vals` moved by `delta` (weekday cyclically; an unsigned field below 0 is skipped) -/
+def seamPerturb (vals : Array (Option Int)) (i : Nat) (delta : Int) : Option (Array (Option Int)) :=
+  match vals.getD i none with
+  | none => none
+  | some v =>
+    let w := if i = 11 then (v + delta) % 7 else v + delta
+    if i ≥ 6 ∧ w < 0 then none else some (vals.set! i (some w))
+
+/-- mode 0: every mask `m < 2^14` with `m % stride = phase`, ascending; mode 1: for each such mask, each
+present field of the mask in index order, `+1` then `-1` -/
+def seamRun (vals : Array (Option Int)) (stride phase mode : Nat) : SeamAcc := Id.run do
+  let mut a : SeamAcc := {}
+  for m in [0:16384] do
+    if m % stride = phase then
+      if mode = 0 then
+        a := a.push (seamCode (Parsed.to_naive_date (seamRecord vals m)))
+      else
+        for i in [0:14] do
+          if m.testBit i then
+            for delta in [(1 : Int), -1] do
+              match seamPerturb vals i delta with
+              | some vs => a := a.push (seamCode (Parsed.to_naive_date (seamRecord vs m)))
+              | none => pure ()
+  return a
+
+def seamOp (args : List String) : String :=
+  let g (s : String) : Option (Option Int) := if s == "-" then some none else s.toInt?.map some
+  match (args.take 14).mapM g, nats? (args.drop 14) with
+  | some vals, some [stride, phase, mode] =>
+    if vals.length = 14 ∧ stride > 0 then (seamRun vals.toArray stride phase mode).show else bad
+  | _, _ => bad
+
 def handle (op : String) (args : List String) : Option String :=
   match op with
+  | "pr.seam" => some (seamOp args)
   | "pr.tzstep" => some (match Parsed.ofTokens (args.take 21), stepZone? (args.drop 21) with
       | some p, some z => showRP showZ (Parsed.to_datetime_with_step_zone p z)
       | _, _ => bad)
